@@ -592,6 +592,28 @@ func c20DiscreteGamma(c *mc.Ctx, cs c20Case) {
 		viol("category-count", "%d categories", len(r))
 		return
 	}
+	// the categories are a function of (shape, count): a second and a third call with the same arguments, and a
+	// call after one with other arguments, give the same values
+	for k, pre := range []func(){nil, nil, func() { models.DiscreteGamma(alpha*1.5+0.1, cs.Ncat+1) }} {
+		var again []float64
+		if pn, msg := mc.Guard(func() {
+			if pre != nil {
+				pre()
+			}
+			again = models.DiscreteGamma(alpha, cs.Ncat)
+		}); pn {
+			c.Violation("C20/DiscreteGamma/panic/"+mc.PanicSite(msg), msg+"; repeated call; case "+jsonStr(cs), cs)
+			return
+		}
+		same := len(again) == len(r)
+		for i := 0; same && i < len(r); i++ {
+			same = again[i] == r[i] || (math.IsNaN(again[i]) && math.IsNaN(r[i]))
+		}
+		if !same {
+			viol("repeated-call-differs", "call #%d with the same arguments gives %v", k+2, again)
+			return
+		}
+	}
 	sum := 0.0
 	for i, x := range r {
 		if math.IsNaN(x) || math.IsInf(x, 0) {
